@@ -197,7 +197,7 @@ theorem phaseCase_phase (c : Cfg) (s : St) (ha : s.again = InitPhase) (hnf : rec
   · rw [pc11 c s h]; split
     · rename_i hh; exact Or.inl hh
     · exact via _ (deliver_again c s) (deliver_phase c s)
-  · rw [pc12 c s h]; exact via _ (sendPass_again c s) (sendPass_phase c s)
+  · rw [pc12 c s h]; exact via _ (sendPassE_again c s) (sendPassE_phase c s)
   · rw [pc13 c s h]; split
     · split
       · rw [afterPEd_true c (setRetry s) (by simp [setRetry, liftF])]
